@@ -364,11 +364,24 @@ def explore(ctx, drv, model, cases, search=False):
             ctx.cov["samples"].append({"case": cases[idx[k]], "impl": impl[idx[k]][:400], "model": mod[k][:400]})
 
 
+def listed_in_coqproject():
+    """once coq/_CoqProject lists C36's files the framework builds them with make (ctx.prove); until then they are
+    compiled here (build_own)"""
+    try:
+        txt = open(os.path.join(vlib.COQ, "_CoqProject")).read().split()
+    except OSError:
+        return False
+    return all(f in txt for f in OWN_FILES)
+
+
 def run(ctx):
     ctx.gate(["C36"])
-    build_own(ctx)
-    obligations = [o for o in OBLIGATIONS if os.path.exists(os.path.join(vlib.COQ, o))]
-    ctx.prove(PROOF_MODULES, obligations)
+    if listed_in_coqproject():
+        proof_modules = [f + "o" for f in OWN_FILES]
+    else:
+        build_own(ctx)
+        proof_modules = PROOF_MODULES
+    ctx.prove(proof_modules, OBLIGATIONS)
     drv = ctx.build_driver("c36_driver")
     model = ctx.build_model("C36", "C36/Extract.v", "c36_main.ml", "semodel", extra_ml=["expr_io.ml"])
     ncases = 3000 if ctx.tier == "quick" else 60000
